@@ -270,6 +270,9 @@ def _env_with_follow(ex):
     node, _ = frontend.find(q)
     env = dict(ENV)
     env['follow_wire'] = VClosure(node, Env(None, dict(ENV)), q)
+    # `self` of the enclosing snake_removal is the diagram normalisation STARTED from: after the first removal it is an
+    # unrelated diagram as far as find_snake is concerned
+    env['self'] = ex.sym_diagram('original', wf=True)
     return env
 
 
